@@ -1,6 +1,7 @@
 /-
   Driver/ExtIns.lean — the guards of the theorems "an approved insertion applies" of Props/C12.lean
-  (`insertPoint_insert_applies`, `dropPoint_drop_applies_closed`, `joinPoint_canJoin`; PM/InsertGuard.lean), evaluated
+  (`insertPoint_insert_applies`, `dropPoint_drop_applies_closed`, `joinPoint_canJoin`,
+  `canChangeType_setNodeMarkup_applies`; PM/InsertGuard.lean), evaluated
   at the answers of the real `insert_point` / `drop_point` / `join_point`.
 -/
 import Lean.Data.Json
@@ -55,5 +56,17 @@ def handleIns (st : St) (op : String) (j : Json) : Option (D (St × Json)) :=
           | some (some b) => ok (Json.bool b)
           | some none => ok Json.null
           | none => eRaises)])
+    -- `canChangeType_setNodeMarkup_applies`: `changeTypeGuard` with the node's own marks kept; the new type is a
+    -- non-leaf type (`type.create` then gives the empty element node the theorem speaks about)
+    | "retype" =>
+      let ty ← nat (← field j "ty")
+      let (ms, valid) := match d.resolve p with
+        | some r =>
+          match r.parent.kids[r.index r.depth]? with
+          | some n => (n.marks, S.validContent ty n.kids)
+          | none => ([], false)
+        | none => ([], false)
+      return (st, Json.mkObj [("ok", Json.bool (changeTypeGuard S d p ty ms && !(S.nodeType ty).isLeaf)),
+        ("valid", Json.bool valid)])
     | _ => throw s!"bad insGuard kind {k}"
   | _ => none
